@@ -167,6 +167,21 @@ def run(repo: Repo, chk: Check, thorough: bool = False) -> None:
                    'the header self-link uses another name than the anchor', ah.loc)
     chk.require('R11.2', 4)
 
+    # a member is addressed as <page>#<name> and anchored with <a name="name">; an element id wins over <a name> when a fragment is resolved,
+    # so a layout element whose id is a possible member name (an identifier) steals the fragment of every member called like it
+    ids: Dict[str, Set[str]] = {}
+    for theme, tpls in themes.items():
+        for tname, t in tpls.items():
+            for e in t.elements():
+                if e.hasAttribute('id'):
+                    v_ = e.getAttribute('id')
+                    if v_.isidentifier():
+                        ids.setdefault(v_, set()).add(f'{theme}/{tname}')
+    chk.ob('R11.2', 'themes :: no layout element id is a possible member name', not ids,
+           'every static id contains a character an identifier cannot have' if not ids else
+           f'ids {sorted(ids)} (e.g. in {sorted(next(iter(ids.values())))[0]}) are valid Python names: for `def main()` the link mod.html#main - in pages, '
+           'indexes and objects.inv - lands on the layout <div id="main">, not on the documentation of the function', 'pydoctor/themes')
+
     # ------------------------------------------------------------------ R11.3
     wd = repo.func(f'{WR}._writeDocsFor')
     cfg = CFG(wd)
